@@ -223,6 +223,13 @@ def run_linop(ctx, prop, prop_file, n_quick, n_thorough, want):
         if (real_ok and rng.random() < (0.4 if not S.opaque else 0.25) and force_real is None) or force_real:
             x = np.ascontiguousarray(x.real)
             single = bool(S.opaque)
+        elif real_ok and force_real is None and rng.random() < 0.15:
+            # single-precision storage (float32 / complex64) of the same small integers: judged by the numpy oracles at single
+            # precision, not compared inside Coq
+            x = (np.ascontiguousarray(x.real) if rng.random() < 0.5 else x).astype(np.float32 if rng.random() < 0.5 and not np.iscomplexobj(x) else np.complex64)
+            if rng.random() < 0.5:
+                x = np.ascontiguousarray(x.real).astype(np.float32)
+            single = True
         yv = cvec(rng, A.oshape, True)
         if real_ok and rng.random() < 0.25:
             yv = np.ascontiguousarray(yv.real)
